@@ -93,12 +93,14 @@ class Rig:
             # from the very address (host, port) session j's control connection has (had)
             other = self.sessions[int(e.split(" ")[1])]
             s.ctl = s.peer.connect(s.port, s.host, source_port=other.ctl.t.get_extra_info("sockname")[1])
-        elif e == "@data":
+        elif e in ("@data", "@data-other"):
+            # (@data-other: the data connection comes from another address than the control connection)
             if s.pasv_port is None:
                 return None
             try:
                 with Running(w.loop):
-                    s.data = s.peer.connect(s.pasv_port, s.host)
+                    s.data = s.peer.connect(s.pasv_port, s.host,
+                                            source_host=None if e == "@data" else ("127.0.0.2" if ":" not in s.host else "::2"))
             except ConnectionRefusedError:
                 s.data = None
         elif e.startswith("@dsend "):
